@@ -303,6 +303,109 @@ func C08(r *h.Run) {
 		}
 	}
 
+	// ---- the same threshold on everything a HANDLER writes: 3 protocols x {server stream, unary} ----
+	for _, proto := range []string{"connect", "grpc", "grpcweb"} {
+		cfg := envCfg{Proto: proto}
+		for _, min := range []int{0, 1, 8, 512} {
+			for _, kind := range []string{"server", "unary"} {
+				sizes := []int{0, 1, 7, 8, 9, 511, 512, 513, 3}
+				var msgs [][]byte
+				for _, sz := range sizes {
+					msgs = append(msgs, genPayload(rng, sz))
+				}
+				if kind == "unary" {
+					msgs = msgs[:1+rng.Intn(len(msgs)-1)]
+					msgs = msgs[len(msgs)-1:]
+				}
+				hopts := []connect.HandlerOption{connect.WithCodec(h.ToyCodec{}), h.WithTag("tagA"), connect.WithCompressMinBytes(min)}
+				var handler *connect.Handler
+				if kind == "server" {
+					handler = connect.NewServerStreamHandler("/verif.Svc/M", func(_ context.Context, _ *connect.Request[h.Raw], st *connect.ServerStream[h.Raw]) error {
+						for _, m := range msgs {
+							if err := st.Send(&h.Raw{B: m}); err != nil {
+								return err
+							}
+						}
+						return nil
+					}, hopts...)
+				} else {
+					handler = connect.NewUnaryHandler("/verif.Svc/M", func(_ context.Context, _ *connect.Request[h.Raw]) (*connect.Response[h.Raw], error) {
+						return connect.NewResponse(&h.Raw{B: msgs[0]}), nil
+					}, hopts...)
+				}
+				unaryConnect := kind == "unary" && proto == "connect"
+				var reqBody []byte
+				if unaryConnect {
+					reqBody = []byte("q")
+				} else {
+					reqBody = h.Frame(0, []byte("q"))
+				}
+				req := httptest.NewRequest(http.MethodPost, "/verif.Svc/M", bytes.NewReader(reqBody))
+				req.Header.Set("Content-Type", cfg.contentType(kind == "unary"))
+				switch {
+				case unaryConnect:
+					req.Header.Set("Accept-Encoding", "tagA")
+				case proto == "connect":
+					req.Header.Set("Connect-Accept-Encoding", "tagA")
+				default:
+					req.Header.Set("Grpc-Accept-Encoding", "tagA")
+				}
+				rec := httptest.NewRecorder()
+				if p := safely(func() { handler.ServeHTTP(rec, req) }); p != nil {
+					r.Fail(h.Failure{Key: "wire/panic", Family: "wire_response", What: fmt.Sprint("panic: ", p), Input: map[string]any{"proto": proto, "kind": kind, "min_bytes": min}})
+					continue
+				}
+				r.Eval("wire_response", fmt.Sprint(proto, kind, min, len(msgs)))
+				body := rec.Body.Bytes()
+				in := map[string]any{"proto": proto, "kind": kind, "min_bytes": min, "sizes": func() []int {
+					var o []int
+					for _, m := range msgs {
+						o = append(o, len(m))
+					}
+					return o
+				}(), "wire_prefix_hex": h.Hex(body[:minInt(len(body), 24)])}
+				r.Sample("wire_response", in)
+				if unaryConnect {
+					enc := rec.Header().Get("Content-Encoding")
+					compressed := enc == "tagA"
+					want := len(msgs[0]) >= min && len(msgs[0]) > 0
+					if min == 0 {
+						want = len(msgs[0]) >= 0
+					}
+					if len(msgs[0]) < min && compressed {
+						r.Fail(h.Failure{Key: "wire/below-min-compressed", Family: "wire_response", What: "a unary Connect response below compress-min-bytes is labelled compressed", Input: in})
+					}
+					_ = want
+					// the label and the bytes agree
+					if compressed != (len(body) == len(msgs[0])+1 && len(body) > 0 && body[0] == h.TagByte("tagA")) && !(compressed && len(msgs[0]) == 0) {
+						r.Fail(h.Failure{Key: "wire/label-disagrees-with-body", Family: "wire_response", What: "Content-Encoding and the body bytes disagree about compression", Input: in, Actual: enc})
+					}
+					continue
+				}
+				// walk the data frames
+				rest, k := body, 0
+				for len(rest) >= 5 && rest[0]&0x82 == 0 && k < len(msgs) {
+					n := int(rest[1])<<24 | int(rest[2])<<16 | int(rest[3])<<8 | int(rest[4])
+					if len(rest)-5 < n {
+						break
+					}
+					compressed := rest[0]&1 == 1
+					if len(msgs[k]) < min && compressed {
+						r.Fail(h.Failure{Key: "wire/below-min-compressed", Family: "wire_response", What: fmt.Sprintf("response message %d (%d bytes) is below compress-min-bytes %d and was compressed", k, len(msgs[k]), min), Input: in})
+					}
+					if len(msgs[k]) >= min && len(msgs[k]) > 0 && !compressed {
+						r.Fail(h.Failure{Key: "wire/at-or-above-min-uncompressed", Family: "wire_response", What: fmt.Sprintf("response message %d (%d bytes) reaches compress-min-bytes %d, compression was negotiated, and it was not compressed", k, len(msgs[k]), min), Input: in})
+					}
+					rest = rest[5+n:]
+					k++
+				}
+				if k != len(msgs) {
+					r.Fail(h.Failure{Key: "wire/frames-missing", Family: "wire_response", What: fmt.Sprintf("%d data frames found for %d messages sent", k, len(msgs)), Input: in})
+				}
+			}
+		}
+	}
+
 	// ---- histories of corrupt and valid compressed calls on shared pools ----
 	for _, procs := range []int{1, 16} {
 		old := runtime.GOMAXPROCS(procs)
